@@ -97,6 +97,8 @@ structure PState where
   cur : Option Section := none
   curData : Option DataSec := none
   pending : List String := []      -- labels waiting for their line (latest first, like `isSymbolled`)
+  pendingMode : Option IoMode := none   -- line-level `iomode` waiting for its line (like `lineMeta`)
+  pendingMeta : Bool := false           -- some line-level metadata is waiting
   bad : Bool := false
 deriving Inhabited
 
@@ -120,7 +122,7 @@ def pstep (st : PState) (raw : String) : PState :=
     | some d => { st with curData := none, src := { st.src with datas := st.src.datas ++ [d] } }
     | none =>
     match st.cur with
-    | some s => if st.pending.isEmpty then { st with cur := none, src := { st.src with sections := st.src.sections ++ [s] } }
+    | some s => if st.pending.isEmpty && !st.pendingMeta then { st with cur := none, src := { st.src with sections := st.src.sections ++ [s] } }
                 else { st with bad := true }
     | none => { st with bad := true }
   | "%meta" :: cmd :: obj :: rest =>
@@ -173,20 +175,30 @@ def pstep (st : PState) (raw : String) : PState :=
     | some s =>
       if op.startsWith "%" then { st with bad := true }
       else if op.endsWith ":" then
-        -- a label line: nothing may follow the label in the subset
+        -- a label line `lbl:` / `lbl: k:v, k:v`, or line metadata alone `: k:v, k:v`.  The metadata waits for the
+        -- next line (like the labels do).  Keys read: `iomode` (async / sync; any other value means nothing, the
+        -- section's mode stays in force) and the inert `tag`; any other key is outside what the oracle reads.
         let lbl := (op.dropEnd 1).toString
-        match lbl.toList with
-        | c :: cs =>
-          if rest.isEmpty && isIdentStart c && cs.all isIdentChar then { st with pending := lbl :: st.pending }
-          else { st with bad := true }
-        | [] => { st with bad := true }
+        let ps := parsePairs ("".intercalate rest)
+        let okKeys := ps.all fun p => p.1 == "iomode" || p.1 == "tag"
+        let wellFormed := rest.isEmpty || (!ps.isEmpty && ps.length == (("".intercalate rest).splitOn ",").length)
+        let mode := ps.foldl (fun acc p => if p.1 == "iomode" then parseMode? p.2 else acc) st.pendingMode
+        let lblOk := match lbl.toList with
+          | c :: cs => isIdentStart c && cs.all isIdentChar
+          | [] => !rest.isEmpty
+        if lblOk && okKeys && wellFormed then
+          { st with pending := if lbl.isEmpty then st.pending else lbl :: st.pending,
+                    pendingMode := mode, pendingMeta := st.pendingMeta || !rest.isEmpty }
+        else { st with bad := true }
       else
         let argToks := if rest.isEmpty then [] else ((" ".intercalate rest).splitOn ",").map fun a => a.trimAscii.toString
         match argToks.mapM parseArg with
         | none => { st with bad := true }
         | some args =>
-          let l : Line := { labels := st.pending, op := op, args := args }
-          { st with pending := [], cur := some { s with lines := s.lines ++ [l] } }
+          -- metadata in front of the `entry` directive would go to the directive: not read
+          if op == "entry" && st.pendingMeta then { st with bad := true } else
+          let l : Line := { labels := st.pending, op := op, args := args, iomode := st.pendingMode }
+          { st with pending := [], pendingMode := none, pendingMeta := false, cur := some { s with lines := s.lines ++ [l] } }
 
 def parseSource (lines : List String) : Option Source :=
   let st := lines.foldl pstep {}
